@@ -35,7 +35,9 @@ ASSUMPTIONS = ["the 5 s 'all slots busy' wait of ThreadingApplication is scaled 
 TIMEOUT = {"quick": 900, "thorough": 3600}
 
 SCENARIOS = ["in_handshake", "out_handshake", "request", "dwr_from_peer", "dwr_from_node", "dpr"]
-FAULTS = ["close", "reset", "read_error", "write_error", "soft_errors", "connect_refused", "connect_failed"]
+RACE_SCENARIOS = ["out_rejected_and_closed", "cer_at_timeout", "equal_ids_two_connections", "unknown_peer_then_close"]
+FAULTS = ["close", "reset", "read_error", "write_error", "soft_errors", "garbage", "connect_refused",
+          "connect_failed"]
 HANDLERS = ["answer", "none", "raise", "slow"]
 CUTS = ["0", "1", "19", "20", "mid", "last-1", "whole", "processing", "submitted"]
 VICTIM, PROBE = "victim.verif.example", "probe.verif.example"
@@ -47,6 +49,8 @@ def shards(tier, seed):
     for i in range(n):
         out.append({"name": f"matrix{i}", "kind": "matrix", "part": i, "parts": n,
                     "sample": 1 if tier == "quick" else 4})
+    for i in range(6 if tier == "quick" else 16):
+        out.append({"name": f"stall{i}", "kind": "stall", "n": 60 if tier == "quick" else 600})
     for i in range(4 if tier == "quick" else 8):
         out.append({"name": f"churn{i}", "kind": "churn", "rounds": 120 if tier == "quick" else 1500,
                     "p": [0.02, 0.1][i % 2]})
@@ -54,18 +58,19 @@ def shards(tier, seed):
 
 
 class Case:
-    def __init__(self, run, scenario, cut, fault, handler, kind, limit, nfaults):
+    def __init__(self, run, scenario, cut, fault, handler, kind, limit, nfaults, stall_seed=None):
         from vf.simnet.world import World, REALM
         from vf.simnet import msgs as M
         self.M, self.REALM = M, REALM
         self.run = run
         self.spec = dict(scenario=scenario, cut=cut, fault=fault, handler=handler, kind=kind, limit=limit,
-                         nfaults=nfaults)
-        out = scenario == "out_handshake"
+                         nfaults=nfaults, stall_seed=stall_seed)
+        out = scenario in ("out_handshake", "out_rejected_and_closed")
         peers = [{"name": VICTIM, "persistent": out, "reconnect_wait": 1, "timers": {"idle_timeout": 10}},
-                 {"name": PROBE}]
+                 {"name": PROBE}, {"name": "victim2.verif.example"}]
+        self.staller = None
         self.beh = {"v": handler}
-        app = {"tag": "a4", "id": 4, "kind": kind, "peers": [VICTIM, PROBE], "max_threads": limit,
+        app = {"tag": "a4", "id": 4, "kind": kind, "peers": [VICTIM, PROBE, "victim2.verif.example"], "max_threads": limit,
                "behaviour": lambda m: self.beh["v"]}
         self.w = World(dict(peers=peers, apps=[app], node={"cea_timeout": 3, "cer_timeout": 3, "dwa_timeout": 3}))
         self.h, self.node, self.app = self.w.h, self.w.node, self.w.apps["a4"]
@@ -111,6 +116,12 @@ class Case:
         elif fault == "read_error":
             ns.recv_plan.append(("err", errno.EIO))
             sp.send(b"\x01")      # makes the socket readable so that recv() is called
+        elif fault == "garbage":
+            from vf import refcodec as R
+            bad = R.enc_msg(272, app=4, flags=0x80, hbh=1, e2e=1,
+                            avps=R.enc_avp(263, b"sess", 0, 0x40)[:5] + (1 << 20).to_bytes(3, "big") + b"abcdefgh")
+            sp.send(rest + bad + b"\x01\x00\x00\x05" + b"\x00" * 40)
+            self.delivered_fault = True
         elif fault == "write_error":
             ns.send_plan.append(("err", errno.EPIPE))
             sp.send(rest or self.M.dwr(VICTIM, self.REALM, hbh=77777, e2e=77777))
@@ -128,13 +139,13 @@ class Case:
         sp_ = self.spec
         scenario, cut, fault = sp_["scenario"], sp_["cut"], sp_["fault"]
         h, M = self.h, self.M
+        if scenario in RACE_SCENARIOS:
+            return self.race_scenario(scenario)
         if scenario == "out_handshake":
             addr = ("10.1.0.1", 3868)
             if fault in ("connect_refused", "connect_failed"):
                 h.script_connect(addr[0], addr[1], "refused" if fault == "connect_refused" else "inprogress-fail")
-            if not self.started:
-                self.w.start()
-                self.started = True
+            self.start_once()
             h.settle()
             for _ in range(3):
                 if any(s.role == "outbound" and not s.closed for s in h.sockets):
@@ -168,9 +179,7 @@ class Case:
                 h.settle()
             self.inject(sp, fault, cea[k:])
             return
-        if not self.started:
-            self.w.start()
-            self.started = True
+        self.start_once()
         if scenario == "in_handshake":
             sp = self.victim_connect(ready=False)
             hbh, e2e = self.ids()
@@ -265,6 +274,66 @@ class Case:
                 h.settle()
             self.inject(sp, fault, dpr[k:])
 
+    def start_once(self):
+        if not self.started:
+            self.w.start()
+            self.started = True
+            if self.spec.get("stall_seed") is not None and self.staller is None:
+                from vf.simnet.stall import Staller
+                self.staller = Staller(self.h, self.spec["stall_seed"])
+                self.staller.start()
+
+    def race_scenario(self, scenario):
+        """Histories in which the main thread and a worker thread act on the same connection at once."""
+        h, M = self.h, self.M
+        self.start_once()
+        self.delivered_fault = True
+        if scenario == "out_rejected_and_closed":
+            h.settle()
+            outs = [p for p in h.outbound_peers if not p.closed and not p.node_sock.closed]
+            if not outs:
+                h.advance(2)
+                h.settle()
+                outs = [p for p in h.outbound_peers if not p.closed and not p.node_sock.closed]
+            if not outs:
+                self.delivered_fault = False
+                return
+            sp = outs[-1]
+            sp.drain()
+            cer = [f for f in sp.frames if f.h.code == 257]
+            if not cer:
+                self.delivered_fault = False
+                return
+            # the rejecting CEA and the end of the stream arrive together: the reader thread (CEA) and
+            # the main thread (end of file) both take the connection down
+            sp.send(M.cea(VICTIM, self.REALM, result=5010, hbh=cer[-1].h.hbh, e2e=cer[-1].h.e2e))
+            sp.close()
+            h.settle()
+        elif scenario == "cer_at_timeout":
+            sp = self.victim_connect(ready=False)
+            h.advance(4)           # cer_timeout is 3: the timer closes while the CER is being handled
+            sp.send(M.cer(VICTIM, self.REALM, auth=[4], hbh=1, e2e=77))
+            h.settle()
+        elif scenario == "unknown_peer_then_close":
+            sp = self.victim_connect(ready=False)
+            sp.send(M.cer("stranger.verif.example", self.REALM, auth=[4], hbh=1, e2e=78))
+            sp.close()
+            h.settle()
+        elif scenario == "equal_ids_two_connections":
+            a = self.victim_connect(ready=True)
+            self.gen += 1
+            b = h.inbound(ip="10.1.0.3", port=52000 + self.gen)
+            h.settle()
+            b.send(M.cer("victim2.verif.example", self.REALM, auth=[4], hbh=1, e2e=1))
+            h.settle()
+            for k in range(3):
+                a.send(M.ccr(VICTIM, self.REALM, self.REALM, app=4, hbh=7 + k, e2e=7 + k))
+                b.send(M.ccr("victim2.verif.example", self.REALM, self.REALM, app=4, hbh=7 + k, e2e=7 + k))
+            h.settle()
+            a.close()
+            b.close()
+            h.settle()
+
     def threads_alive(self):
         dead = []
         n = self.node
@@ -333,9 +402,7 @@ class Case:
             for _ in range(self.spec["nfaults"]):
                 self.one_fault()
                 self.h.settle()
-            if not self.started:
-                self.w.start()
-                self.started = True
+            self.start_once()
             self.probe()
             self.h.settle()
             for e in self.h.thread_exc:
@@ -344,6 +411,13 @@ class Case:
                 if not any(self.role_of(e["thread"]) == role for e in self.h.thread_exc):
                     self.witness(f"thread_dead:{role}", {})
         finally:
+            if self.staller is not None:
+                try:
+                    self.staller.stop()
+                except Exception:
+                    pass
+                for k, v in self.staller.stalls.items():
+                    self.run.cov["stalls_" + k] = self.run.cov.get("stalls_" + k, 0) + v
             if hasattr(self.app, "release"):
                 self.app.release.set()
             self.w.teardown()
@@ -358,6 +432,7 @@ class Yielder:
     def __init__(self, p, seed):
         self.p, self.rng = p, random.Random(seed)
         self.yields = 0
+        self.hot_yields = 0
         self.lock = threading.Lock()
         self.on = False
 
@@ -378,11 +453,34 @@ class Yielder:
                         if hasattr(f, "__code__"):
                             codes.append(f.__code__)
 
+        # lines touching the tables shared between the main thread and worker threads get a much higher
+        # yield probability (found from the source text at run time, so the selection follows edits)
+        import inspect
+        hot_words = ("self.connections", "self.peer_sockets", "_half_ready_connections", "_peer_waiting_answer",
+                     "_origin_waiting_answer", "_sent_answers", "_app_waiting_answer", "_answer_waiting",
+                     "socket_peers", ".connection = ", "_thread_slots")
+        self.hot = set()
+        for c in codes:
+            try:
+                lines, start = inspect.getsourcelines(c)
+            except (OSError, TypeError):
+                continue
+            for i, text in enumerate(lines):
+                if any(w in text for w in hot_words):
+                    self.hot.add((c, start + i))
+                    self.hot.add((c, start + i + 1))    # the line after a check is where a check-then-act races
+
         def cb(code, line):
             if not self.on:
                 return
             with self.lock:
                 r = self.rng.random()
+            if (code, line) in self.hot:
+                if r < 0.35:
+                    self.yields += 1
+                    self.hot_yields += 1
+                    time.sleep(0.0003 if r > 0.1 else 0.0012)
+                return
             if r < self.p:
                 self.yields += 1
                 time.sleep(0 if r > self.p / 4 else 0.0005)
@@ -408,9 +506,10 @@ def churn(run, spec, rng):
     from vf.simnet.world import World, REALM
     from vf.simnet import msgs as M
     peers = [{"name": f"peer{i + 1}.verif.example"} for i in range(3)]
+    peers.append({"name": "dialled.verif.example", "persistent": True, "reconnect_wait": 0, "ip": "10.1.0.9"})
     w = World(dict(peers=peers, apps=[{"tag": "a4", "id": 4, "kind": "threading", "max_threads": 0,
                                        "peers": [p["name"] for p in peers], "behaviour": "answer"}],
-                   node={"idle_timeout": 10 ** 6}))
+                   node={"idle_timeout": 10 ** 6, "cer_timeout": 60}))
     h = w.h
     y = Yielder(spec["p"], h64("C14y", spec["seed"], spec["name"]))
     try:
@@ -437,6 +536,18 @@ def churn(run, spec, rng):
                 for _ in range(rng.randrange(0, 4)):
                     hbh += 1
                     sp.send(M.ccr(f"peer{i + 1}.verif.example", REALM, REALM, app=4, hbh=hbh, e2e=hbh))
+            # the connection the node dials itself: CEA rejected and closed at once, so the reader thread
+            # (rejected CEA) and the main thread (end of file) both remove the same connection
+            for op in list(h.outbound_peers):
+                if op.closed or getattr(op, "answered", False):
+                    continue
+                op.drain()
+                cer = [f for f in op.frames if f.h.code == 257 and f.is_request]
+                if cer:
+                    op.answered = True
+                    op.send(M.cea("dialled.verif.example", REALM, result=rng.choice([5010, 3010, 2001]), auth=[4],
+                                  hbh=cer[-1].h.hbh, e2e=cer[-1].h.e2e))
+                    rng.choice([op.close, lambda: None, op.reset_conn])()
             h.advance(61)          # the statistics thread takes a snapshot in every round
             time.sleep(rng.choice([0.0, 0.002, 0.006]))
             for i, sp in sps:
@@ -459,6 +570,8 @@ def churn(run, spec, rng):
             if not t.is_alive() and not any(role(None, e["thread"]) == r_ for e in h.thread_exc):
                 run.witness(f"thread_dead:{r_}.under_injected_yields", {})
         run.cov["yields_injected"] += y.yields
+        run.cov["yields_at_shared_table_lines"] = run.cov.get("yields_at_shared_table_lines", 0) + y.hot_yields
+        run.cov["outbound_connections_churned"] = run.cov.get("outbound_connections_churned", 0) + len(h.outbound_peers)
         run.cov["churn_rounds"] += spec["rounds"]
         run.cov["connections_churned"] += len(h.conns)
     finally:
@@ -554,6 +667,17 @@ def run_shard(spec):
                 for _ in range(spec["sample"]):
                     run.one(sc, cut, fault, hd, kind if kind == "basic" else "threading",
                             0 if kind == "basic" else rng.choice([0, 1, 2, 3]), rng.choice([2, 3]))
+    elif spec["kind"] == "stall":
+        # directed schedule perturbation: the same scenarios, threads stalled at shared-table lines
+        cases = matrix(1)
+        for j in range(spec["n"]):
+            if j % 3 == 0:
+                c = rng.choice(cases)
+                run.one(*c, rng.getrandbits(30))
+            else:
+                sc = RACE_SCENARIOS[j % len(RACE_SCENARIOS)] if j % 3 == 1 else rng.choice(RACE_SCENARIOS)
+                run.one(sc, "whole", "close", rng.choice(["answer", "none"]), "threading", rng.choice([0, 1, 2]),
+                        rng.choice([1, 2, 3]), rng.getrandbits(30))
     else:
         churn(run, spec, rng)
     return run.result()
@@ -562,7 +686,8 @@ def run_shard(spec):
 def replay(obj):
     run = Run()
     if "scenario" in obj:
-        run.one(obj["scenario"], obj["cut"], obj["fault"], obj["handler"], obj["kind"], obj["limit"], obj["nfaults"])
+        run.one(obj["scenario"], obj["cut"], obj["fault"], obj["handler"], obj["kind"], obj["limit"], obj["nfaults"],
+                obj.get("stall_seed"))
     else:
         churn(run, {"name": obj["churn"], "p": obj["p"], "rounds": 60, "seed": 0}, random.Random(0))
     return run.result()
@@ -574,7 +699,9 @@ def finish(tier, seed, cov, evaluations):
         out.append("no fault was actually delivered")
     if cov.get("probes_completed", 0) == 0:
         out.append("no probe completed")
-    for k, vals in (("scenarios", SCENARIOS), ("faults", FAULTS), ("handlers", HANDLERS)):
+    if cov.get("stalls_io", 0) == 0 or cov.get("stalls_worker", 0) == 0:
+        out.append("directed schedule perturbation never stalled a thread")
+    for k, vals in (("scenarios", SCENARIOS + RACE_SCENARIOS), ("faults", FAULTS), ("handlers", HANDLERS)):
         for v in vals:
             if cov.get(k, {}).get(v, 0) == 0:
                 out.append(f"{k} class {v} never exercised")
